@@ -54,6 +54,13 @@ let run_case (case : string) : string =
              c_woken = []; c_panicked = [] } in
   ignore weaks;
   let s = ref s0 in
+  (* wake EVENTS per subscriber: a step that wakes appends the drained waker list to c_woken; a
+     subscriber occurring several times in one such chunk (registered twice) is one event *)
+  let events = Array.make (max nsubs 1) 0 in
+  let note_events (before : nat list) (after : nat list) =
+    let nb = List.length before in
+    let chunk = List.sort_uniq compare (List.map n2i (List.filteri (fun i _ -> i >= nb) after)) in
+    List.iter (fun k -> if k < nsubs then events.(k) <- events.(k) + 1) chunk in
   let buf = Buffer.create 256 in
   let ambiguous = ref false in
   let thread t = List.nth !s.c_threads t in
@@ -61,6 +68,7 @@ let run_case (case : string) : string =
   let step_text t =
     (* ambiguity: two blocked threads competing for an exclusive acquisition *)
     let (s', code), unb = release fixed !s (i2n t) in
+    note_events !s.c_woken s'.c_woken;
     (* detect ambiguity: more than one waiting thread enabled in the pre-wake state where not all are readers *)
     (match cstep fixed !s (i2n t) with
      | Advanced sa ->
@@ -116,7 +124,10 @@ let run_case (case : string) : string =
     let notearly = (!owners = 0) || not (List.mem "N" f1) in
     (* drop every remaining owner, one after the other *)
     while !owners > 0 do
-      if !owners = 1 then (ver := 0; woken := !woken @ !wakers; wakers := []);
+      if !owners = 1 then begin
+        ver := 0;
+        List.iter (fun k -> if k < nsubs then events.(k) <- events.(k) + 1) (List.sort_uniq compare !wakers);
+        woken := !woken @ !wakers; wakers := [] end;
       decr owners
     done;
     let f2 = List.init nsubs (fun k -> poll k) in
@@ -124,7 +135,7 @@ let run_case (case : string) : string =
     let ended = List.for_all (fun x -> x = "N") f2 in
     (* wake counts of the initially pending subscribers *)
     let cnt k = List.length (List.filter (fun x -> x = k) !woken) in
-    Buffer.add_string buf (" wakes=" ^ String.concat "," (List.init nsubs (fun k -> string_of_int (cnt k))));
+    Buffer.add_string buf (" wakes=" ^ String.concat "," (List.init nsubs (fun k -> string_of_int events.(k))));
     let wake_ok = List.for_all (fun k -> cnt k >= 1) (List.init pend (fun k -> k)) in
     (* C04: the previous values returned by the sets plus the final value = initial value plus all written *)
     let written = List.filter_map (fun th -> match th.t_op with CSet v -> Some (n2i v) | _ -> None) !s.c_threads in
